@@ -163,4 +163,12 @@ def singleEntry (s : St) (direct : List String) : Bool :=
   let targets := s.specs.flatMap (·.targets)
   targets.all (fun t => (targets.filter (· == t)).length ≤ 1 && !direct.contains t)
 
+/-- Acyclicity, witnessed by a fixed order of the topics: publish edges only go to topics later in `order`
+(the harness generates specs over `harnessOrder`). -/
+def forwardOnly (order : List String) (specs : List Spec) : Bool :=
+  specs.all (fun sp => sp.targets.all (fun t => decide (order.idxOf sp.topic < order.idxOf t)))
+
+/-- the topological order of the topics the Go harness uses (`svcTopics` in harness/c09/svc.go) -/
+def harnessOrder : List String := ["t0", "t1", "p0", "p1", "p2"]
+
 end Kap.C09.Svc
